@@ -401,6 +401,12 @@ func main() {
 	sort.Strings(srows)
 	fmt.Println("/-- the maps of variable.InMemoryStorer -/")
 	fmt.Println("def storerMaps : List String := " + list(sf.fields))
+	var mt []string
+	for _, f := range sf.fields {
+		mt = append(mt, "("+q(f)+", "+q(sf.types[f])+")")
+	}
+	fmt.Println("/-- the maps with their Go types -/")
+	fmt.Println("def storerMapTypes : List (String × String) := [" + strings.Join(mt, ", ") + "]")
 	fmt.Println("/-- method ↦ what it does to the maps: (set | delete | clear | reset, map) in source order -/")
 	fmt.Println("def storerOps : List (String × List (String × String)) := [" + strings.Join(srows, ",\n  ") + "]")
 	// --- internal/tree/creator.go FromReader: the order of what matters for "syntax errors are reported and nothing is built
